@@ -119,12 +119,16 @@ def oracle_storage(ctx, strings: Sequence[str]) -> None:
     from datashard.storage_backend import LocalStorageBackend
     outcomes: collections.Counter = collections.Counter()
     n = 0
+    shrunk: set = set()          # shrink only the first failure of each (entry point, root spelling)
     bases = [("direct", wsp.root), ("symlink", wsp.lnroot)]
     for base_kind, base in bases:
         b = LocalStorageBackend(base)
         for name, fn in pathaudit.storage_entry_points().items():
             for p in strings:
-                outcome, problems = pathaudit.run_case(wsp, judge, audit, name, lambda: fn(b, p), p, base_kind, False)
+                outcome, problems = pathaudit.run_case(wsp, judge, audit, name, lambda: fn(b, p), p, base_kind, False,
+                                                       call=(lambda s_, fn=fn, b=b: (lambda: fn(b, s_))) if (name, base_kind) not in shrunk else None)
+                if problems:
+                    shrunk.add((name, base_kind))
                 outcomes[f"{name}:{outcome}"] += 1
                 n += 1
                 ctx.count(1, ("storage", name, base_kind, p))
@@ -134,7 +138,10 @@ def oracle_storage(ctx, strings: Sequence[str]) -> None:
         dfm = pathaudit.make_dfm(base)
         for name, fn in pathaudit.dfm_entry_points().items():
             for p in strings:
-                outcome, problems = pathaudit.run_case(wsp, judge, audit, name, lambda: fn(dfm, p), p, base_kind, True)
+                outcome, problems = pathaudit.run_case(wsp, judge, audit, name, lambda: fn(dfm, p), p, base_kind, True,
+                                                       call=(lambda s_, fn=fn, dfm=dfm: (lambda: fn(dfm, s_))) if (name, base_kind) not in shrunk else None)
+                if problems:
+                    shrunk.add((name, base_kind))
                 outcomes[f"{name}:{outcome}"] += 1
                 dfm_n += 1
                 ctx.count(1, ("dfm", name, base_kind, p))
@@ -196,15 +203,18 @@ def oracle_table(ctx, strings: Sequence[str]) -> None:
     audit = Audit.get()
     outcomes: collections.Counter = collections.Counter()
     n = 0
+    shrunk: set = set()
     for base_kind, base in (("direct", wsp.root), ("symlink", wsp.lnroot)):
         for entry in TABLE_ENTRIES:
             # the collector never resolves a marker payload (it only protects that name) and treats listed /
             # rollback paths best-effort: for those only the touch and sentinel rules apply
             absolute_capable = entry.startswith(("scan", "row_count", "append"))
             for p in strings:
-                outcome, problems = pathaudit.run_case(wsp, judge, audit, entry, table_call(wsp, base, entry, p), p, base_kind, absolute_capable)
-                if entry.startswith("gc:") or entry.startswith("delete_files"):
-                    problems = [pr for pr in problems if pr["rule"] != "reject"]
+                outcome, problems = pathaudit.run_case(wsp, judge, audit, entry, table_call(wsp, base, entry, p), p, base_kind, absolute_capable,
+                                                       call=(lambda s_, base=base, entry=entry: table_call(wsp, base, entry, s_)) if (entry, base_kind) not in shrunk else None,
+                                                       ignore_rules=("reject",) if entry.startswith(("gc:", "delete_files")) else ())
+                if problems:
+                    shrunk.add((entry, base_kind))
                 outcomes[f"{entry}:{outcome}"] += 1
                 n += 1
                 ctx.count(1, ("table", entry, base_kind, p))
@@ -477,9 +487,8 @@ def replay(ctx, payload) -> int:
         f = pathaudit.storage_entry_points()[entry]
         fn = lambda: f(b, p)             # noqa: E731
         absolute_capable = False
-    outcome, problems = pathaudit.run_case(wsp, judge, audit, entry, fn, p, base_kind, absolute_capable)
-    if entry.startswith("gc:") or entry.startswith("delete_files"):
-        problems = [pr for pr in problems if pr["rule"] != "reject"]
+    outcome, problems = pathaudit.run_case(wsp, judge, audit, entry, fn, p, base_kind, absolute_capable,
+                                           ignore_rules=("reject",) if entry.startswith(("gc:", "delete_files")) else ())
     print(f"replay: {entry}({p!r}) root={base_kind} -> outcome {outcome}")
     for pr in problems:
         print("replay: STILL FAILS", pr)
